@@ -186,6 +186,9 @@ func (c *check) Init(tier string, seed int64) engine.Space {
 	c.add("structure-x-line-height", pd, slots{st: allStruct(), lh: allLH}, 12)
 	c.add("structure-x-align", pd, slots{st: allStruct(), align: allAlign}, 12)
 	c.add("structure-x-indent", paragraphs(3, lens4, spaceOnly), slots{st: allStruct(), indent: allIndent}, 12)
+	// D'. a span glued to the preceding text (no break opportunity at its start) x every white-space mode: the line
+	// overflows inside the span and must be broken at an opportunity inside the earlier sibling
+	c.add("glued-x-white-space", paragraphs(3, lens4, spaceOnly), slots{st: []int{stGlued, stSpan, stNested}, ws: allWS}, 12)
 	// E. overflow-wrap / word-break x separators x wrapping white-space modes
 	pe := paragraphs(2, lens4, allSeps)
 	pe = append(pe, paragraphs(3, lens4, spaceOnly)...)
